@@ -105,3 +105,31 @@ Definition cpremises_b (p : Position) (m : Mv) : bool :=
 
 (* every move kind *)
 Definition refines_b (p : Position) (m : Mv) : bool := premises_b p m || cpremises_b p m.
+
+(* ------------------------------------------------------------------ executable premises of the key theorems (C04) *)
+Definition wf_b (p : Position) (s : N) : bool :=
+  empty_b p s || existsb (fun k => holds_b p s false k || holds_b p s true k) [0; 1; 2; 3; 4; 5].
+Definition sq64_list : list N := map N.of_nat (seq 0 64).
+Definition bb8_b (p : Position) : bool :=
+  (c_us p <? TWO64) && (c_them p <? TWO64) && (pawns p <? TWO64) && (knights p <? TWO64) && (bishops p <? TWO64)
+  && (rooks p <? TWO64) && (queens p <? TWO64) && (kings p <? TWO64).
+Definition implb' (a b : bool) : bool := negb a || b.
+
+(* what the key theorems need of the position: boards below 2^64, one man at most per square, ep square on the board,
+   castling rights backed by rooks, king between the rooks its rights refer to, stored key = recomputed key *)
+Definition key_pos_b (p : Position) : bool :=
+  bb8_b p && forallb (wf_b p) sq64_list
+  && (match ep p with Some e => e <? 64 | None => true end)
+  && implb' (us_ksc p) (holds_b p (sq_of (cf0 p) 0) false ROOK)
+  && implb' (us_qsc p) (holds_b p (sq_of (cf1 p) 0) false ROOK)
+  && implb' (them_ksc p) (tb p (sq_of (cf2 p) 7))
+  && implb' (them_qsc p) (tb p (sq_of (cf3 p) 7))
+  && (hash p =? calculate_hash p).
+
+Definition key_move_b (p : Position) (m : Mv) : bool :=
+  key_pos_b p
+  && (premises_b p m
+      || cpremises_b p m
+         && (if m_from m <? m_to m then us_ksc p else us_qsc p)
+         && implb' (us_ksc p) (m_from m <? sq_of (cf0 p) 0)
+         && implb' (us_qsc p) (sq_of (cf1 p) 0 <? m_from m)).
